@@ -509,7 +509,10 @@ def _main(a, pid, seed, t0, spec, coqdir, deps, workdir, overlay, problems, note
     }
     ev = {"property_id": pid, "tier": a.tier, "seed": seed, "level": "proof", "coverage": cov,
           "assumptions": spec.get("assumptions", []), "wall_s": round(time.time() - t0, 2), "violations": violations}
-    json.dump(ev, open(os.path.join(VERIF, "evidence", pid + ".json"), "w"), indent=1)
+    # an overlay run is about a modified tree: it must not replace the evidence of the real tree
+    evdir = os.path.join(VERIF, "evidence") if not overlay else os.path.join(WORK, "evidence-overlay")
+    os.makedirs(evdir, exist_ok=True)
+    json.dump(ev, open(os.path.join(evdir, pid + ".json"), "w"), indent=1)
 
     log("%s tier=%s seed=%d theorems=%d/%d evaluations=%d model_cases=%d mismatches=%d oracle_failures=%d (known %d) wall=%.1fs" % (
         pid, a.tier, seed, discharged, len(thms), cov["evaluations"], cov["model_cases_compared"], cov["model_mismatches"],
